@@ -83,6 +83,12 @@ pub fn fasta_record(rec: &fasta::RefRecord, o: &RecObs, ctx: &mut MonCtx) {
         if n != fwd || n != bwd || n != o.lines.len() {
             report(ctx, "C13.num_seq_lines", format!("num_seq_lines {} forward count {} reverse count {}", n, fwd, bwd));
         }
+        // the reverse view yields the same lines
+        let mut rev: Vec<Vec<u8>> = rec.seq_lines().rev().map(|l| l.to_vec()).collect();
+        rev.reverse();
+        if rev != o.lines {
+            report(ctx, "C13.seq_lines_rev", format!("seq_lines().rev() yields {:?}, forward iteration {:?}", rev.iter().map(|l| show(l)).collect::<Vec<_>>(), o.lines.iter().map(|l| show(l)).collect::<Vec<_>>()));
+        }
         let borrowed = matches!(full, Cow::Borrowed(_));
         if borrowed != (fwd == 1) {
             report(ctx, "C13.full_seq_borrow", format!("full_seq borrowed={} with {} sequence lines", borrowed, fwd));
